@@ -86,8 +86,11 @@ func checkDeny(c denyCase) denyOutcome {
 		if err != nil {
 			return denyOutcome{discard: "parse-error"}
 		}
-		cs, errS := gojq.Compile(qs, opts...)
-		ca, errA := gojq.Compile(qa, opts...)
+		cs, errS := safeCompile(qs, opts...)
+		ca, errA := safeCompile(qa, opts...)
+		if m := isCompilePanic(errS, errA); m != "" {
+			return denyOutcome{msg: m}
+		}
 		if (errS == nil) != (errA == nil) {
 			return denyOutcome{msg: fmt.Sprintf("compilation differs%s: %q: %v; %q: %v", with, c.Src, errS, c.Alt, errA)}
 		}
@@ -120,15 +123,17 @@ func checkDeny(c denyCase) denyOutcome {
 		if err != nil {
 			return denyOutcome{discard: "parse-error"}
 		}
-		if _, err := gojq.Compile(qa, opts...); err != nil {
+		if _, err := safeCompile(qa, opts...); err != nil {
 			return denyOutcome{discard: "control-does-not-compile"}
 		}
 		qs, err := gojq.Parse(c.Src)
 		if err != nil {
 			return denyOutcome{msg: fmt.Sprintf("%q does not parse: %v", c.Src, err)}
 		}
-		if _, err := gojq.Compile(qs, opts...); err == nil {
+		if _, err := safeCompile(qs, opts...); err == nil {
 			return denyOutcome{msg: fmt.Sprintf("%q compiles%s although the capability it names was not granted", c.Src, with)}
+		} else if m := isCompilePanic(err); m != "" {
+			return denyOutcome{msg: fmt.Sprintf("%q%s: %s", c.Src, with, m)}
 		}
 		return denyOutcome{}
 	}
@@ -478,7 +483,10 @@ func checkVars(c varsCase) varsOutcome {
 			vals[i] = v
 		}
 	}
-	code, errC := gojq.Compile(q, gojq.WithVariables(c.Names))
+	code, errC := safeCompile(q, gojq.WithVariables(c.Names))
+	if m := isCompilePanic(errC); m != "" {
+		return varsOutcome{msg: m}
+	}
 	if len(vals) != len(c.Names) {
 		if errC != nil {
 			return varsOutcome{discard: "compile-error"}
@@ -530,7 +538,10 @@ func checkVars(c varsCase) varsOutcome {
 	if err != nil {
 		return varsOutcome{discard: "parse-error"}
 	}
-	codeO, errO := gojq.Compile(qo)
+	codeO, errO := safeCompile(qo)
+	if m := isCompilePanic(errO); m != "" {
+		return varsOutcome{msg: m}
+	}
 	if (errC == nil) != (errO == nil) {
 		return varsOutcome{msg: fmt.Sprintf("compilation differs: WithVariables(%v): %v; %q: %v", c.Names, errC, osrc, errO)}
 	}
